@@ -1,5 +1,6 @@
 import SamplyModel.Proto
 import SamplyModel.Model.ProfileSer
+import SamplyModel.Model.ProfileDecode
 /-!
 Line protocol for C03 (shared with `harness/src/bin/c03.rs`).
 
@@ -410,20 +411,8 @@ The reference side (`Spec`) never looks at a table index: registers denote descr
 namespace C03
 open PT Proto
 
-structure FrameDesc where
-  name : String
-  cat : String × Nat
-  sub : String
-  lib : Option String
-  addr : Option Nat
-  /-- lib, address, size, name of the native symbol -/
-  nsym : Option (String × Nat × Option Nat × String)
-  depth : Nat
-  file : Option String
-  line : Option Nat
-  col : Option Nat
-  flags : Nat
-deriving DecidableEq, Repr
+-- `FrameDesc` (the index-free description of a frame) lives in `Model/ProfileDecode.lean` (`PT.FrameDesc`):
+-- it is the vocabulary of the theorems `C03_frame_rows` / `C03_canonical_*` as well.
 
 abbrev StackDesc := Option (List FrameDesc)
 
@@ -479,6 +468,8 @@ structure Spec where
   /-- a mapping with an empty or inverted range was added: the declarative mapping semantics below
   does not cover it, the canonical clause is then not judged -/
   oddMaps : Bool := false
+  /-- every frame handle the implementation returned: (thread, index inside the handle, description) -/
+  frames : List (Nat × Nat × FrameDesc) := []
   err : Option String := none
 
 /-- the pid / tid string of the `k`-th reuse of a number -/
@@ -571,7 +562,12 @@ def Spec.step (s : Spec) (n : Nat) (w : List String) (out : String) : Spec :=
     if out = "skipped" then s else s.fail s!"op {n}: operand register unset but outcome `{out}`"
   let frameOp (s : Spec) (d : String) (t : Nat) (desc : FrameDesc) (mismatch : Bool) (mayPanic : Bool) : Spec :=
     let (s, go) := s.outcome n out mismatch mayPanic
-    if go then s.setReg d (.frame t desc) else s
+    if !go then s else
+    -- `h <thread> <index>`: the numbers inside the returned FrameHandle
+    let s := match (words out).map num? with
+      | [_, some _, some i] => { s with frames := (t, i, desc) :: s.frames }
+      | _ => s
+    s.setReg d (.frame t desc)
   match w with
   | ["process", d, pid, _, _] =>
     match num? pid with
@@ -932,29 +928,7 @@ def parseTables (ls : List String) : Except String SerProfile :=
 
 /-! ### decoding tables back into descriptions -/
 
-def decodeFrame (s : SerProfile) (t : SerThread) (i : Nat) : Option FrameDesc := do
-  let func ← t.ftFunc[i]?
-  let name ← (t.fnName[func]?).bind (t.strings[·]?)
-  let file ← (match ← t.fnFile[func]? with
-    | none => some none
-    | some f => (t.strings[f]?).map some)
-  let flags ← t.fnFlags[func]?
-  let lib ← (match ← t.fnRes[func]? with
-    | none => some none
-    | some r => do
-      let l ← (t.rtLib[r]?).bind (s.libs[·]?)
-      -- the resource's name is the library's display name (`LibraryInfo::name`); `l` is its identity
-      let rn ← (t.rtName[r]?).bind (t.strings[·]?)
-      if rn = libDisplayName l then pure (some l) else none)
-  let c ← (t.ftCat[i]?).bind (s.cats[·]?)
-  let sub ← (t.ftSub[i]?).bind (c.2.2[·]?)
-  let nsym ← (match ← t.ftNsym[i]? with
-    | none => some none
-    | some n => do
-      let l ← (t.nsLib[n]?).bind (s.libs[·]?)
-      let nm ← (t.nsName[n]?).bind (t.strings[·]?)
-      pure (some (l, ← t.nsAddr[n]?, ← t.nsSize[n]?, nm)))
-  pure ⟨name, (c.1, c.2.1), sub, lib, ← t.ftAddr[i]?, nsym, ← t.ftDepth[i]?, file, ← t.ftLine[i]?, ← t.ftCol[i]?, flags⟩
+-- `decodeFrame` = `PT.decodeFrame` (`rowFrame` then `descOfFrame`), see `Model/ProfileDecode.lean`
 
 /-- frames of stack `i`, root first; `fuel` bounds the walk (prefixes point to earlier rows) -/
 def decodeStack (s : SerProfile) (t : SerThread) : Nat → Nat → Option (List FrameDesc)
@@ -1099,6 +1073,23 @@ def checkThreadCanonical (sp : Spec) (s : SerProfile) (h : Nat) : Option String 
         | some i => some s!"tid={th.tid}: marker {i} does not carry the name / category / stack / strings the caller supplied"
         | none => none
 
+/-- every frame handle denotes, after serialization, the frame the caller described — whether or not a
+sample / marker refers to it; every frame row decodes; every resource row is named after its library -/
+def checkFramesCanonical (sp : Spec) (s : SerProfile) : Option String :=
+  match s.threads.find? (fun st => !resNamesOk s st) with
+  | some st => some s!"tid={st.tid}: a resourceTable row is not named after its library"
+  | none =>
+  match s.threads.find? (fun st => !(List.range st.ftLen).all (fun i => (decodeFrame s st i).isSome)) with
+  | some st => some s!"tid={st.tid}: a frame row cannot be decoded"
+  | none =>
+  let bad := sp.frames.find? (fun f =>
+    match (sp.threads[f.1]?).bind (fun th => (posOfTid s th.tid).bind (s.threads[·]?)) with
+    | none => true
+    | some st => decodeFrame s st f.2.1 != some f.2.2)
+  match bad with
+  | some f => some s!"frame handle ({f.1}, {f.2.1}) does not decode to the frame the caller supplied"
+  | none => none
+
 /-- allocation samples of a process live on its first thread; `none` = fine -/
 def checkAllocCanonical (sp : Spec) (s : SerProfile) (p : Nat) : Option String :=
   match sp.procs[p]? with
@@ -1146,6 +1137,9 @@ def judge (ops impl : List String) : Bool × String :=
     if !identOk sp.view s then (false, "identity clauses (identOk) violated") else
     if sp.oddMaps then (true, "ok (canonical clause not judged: empty or inverted mapping range)") else
     match (List.range sp.threads.length).findSome? (checkThreadCanonical sp s) with
+    | some e => (false, e)
+    | none =>
+    match checkFramesCanonical sp s with
     | some e => (false, e)
     | none =>
     match (List.range sp.procs.length).findSome? (fun p =>
